@@ -129,7 +129,7 @@ def run(ctx):
                     G = [strip_refs(x.term[1]) for x in p.conds() if x.term[0] == "discr" and is_call(strip_refs(x.term[1]), "HashMap::get") and const_str(call_args(strip_refs(x.term[1]))[1]) == key]
                     t0 = strip_refs(t)
                     if G and ((c["kind"] == "optional-result" and agg_variant(t0) is not None and agg_variant(t0)[1] in ("Some", "None")) or
-                              (c["kind"] == "list-result" and isinstance(t0, tuple) and (t0[0] in ("havoc", "mutated") or is_call(t0, "Vec::new", "Vec::<T>::new")))):
+                              (c["kind"] == "list-result" and isinstance(t0, tuple) and (t0[0] in ("havoc", "mutated", "field") or is_call(t0, "Vec::new", "Vec::<T>::new")))):
                         g = G[-1]
                         fact = [x.fact for x in p.conds() if x.term[0] == "discr" and strip_refs(x.term[1]) == g][-1]
                         present = fact == ("eq", 1)
@@ -153,7 +153,8 @@ def run(ctx):
                                 acc = accumulation(ctx, DK, t, paths)
                                 v = find_calls(acc["item"], c["via"]) if acc else []
                                 ok = acc is not None and is_call(strip_refs(acc["src"]), "str>::split_whitespace") and from_payload(call_args(strip_refs(acc["src"]))[0]) and bool(v) \
-                                    and has_try(acc["item"]) and not find_calls(acc["item"], "Result::ok", "Result::unwrap_or", "Result::unwrap_or_default")
+                                    and (has_try(acc["item"]) or (acc["form"] == "collect" and acc["fallible"] and "Result" in " ".join(str(g_) for g_ in (find_calls(t, "::collect") or [((),(),())])[0][2]))) \
+                                    and not find_calls(acc["item"], "Result::ok", "Result::unwrap_or", "Result::unwrap_or_default")
                             why = "%s is not `empty when %s is absent, else %s(item)? for every whitespace-separated item, in order`" % (f, key, c["via"])
                         ctx.check(ok, "D1-KEY-FIELD", DK, "field=%s" % f, "%s <- %s (%s, written with control flow)" % (f, key, c["kind"]), why, fn_span(body))
                         alt_seen.setdefault(f, set()).add(present)
@@ -186,7 +187,8 @@ def run(ctx):
                         elif is_call(u_, "HashMap::get"):
                             break
                         elif is_call(u_) and call_args(u_):
-                            chain.append(mir.norm_path(u_[1]).rsplit("::", 1)[-1])
+                            if "option::Option" in u_[1] or "Option::" in mir.norm_path(u_[1]) or "Option<" in u_[1]:
+                                chain.append(mir.norm_path(u_[1]).rsplit("::", 1)[-1])      # a combinator on the looked-up Option itself
                             u_ = strip_refs(call_args(u_)[0])
                         else:
                             break
@@ -224,6 +226,16 @@ def run(ctx):
                                     mf = [rp_[0].end[1]]
                         ok = ok and bool(mf) and const_str(call_args(mf[0])[0]) == key
                         why = "required %s is not %s(map.get(key).ok_or(missing_field(key))?)" % (f, c["via"])
+                        if not ok:
+                            # the same written with control flow: match map.get(key) { Some(v) => via(v), None => return Err(missing_field(key)) }
+                            G = [x for x in p.conds() if x.term[0] == "discr" and is_call(strip_refs(x.term[1]), "HashMap::get") and const_str(call_args(strip_refs(x.term[1]))[1]) == key]
+                            if G and G[-1].fact == ("eq", 1):
+                                g = strip_refs(G[-1].term[1])
+                                pay = mentions(t, lambda s_: len(s_) > 2 and s_[0] == "field" and s_[2] == 0 and isinstance(s_[1], tuple) and s_[1][:1] == ("downcast",) and s_[1][2] == "Some" and strip_refs(s_[1][1]) == g)
+                                absent = [q for q in ret_paths(paths) if any(x.term[0] == "discr" and strip_refs(x.term[1]) == g and (x.fact == ("eq", 0) or (x.fact[0] == "ne" and 1 in x.fact[1])) for x in q.conds())]
+                                okabs = bool(absent) and all(unwrap_err(q.end[1]) is not None and is_call(strip_refs(unwrap_err(q.end[1])), "Error::missing_field")
+                                                             and const_str(call_args(strip_refs(unwrap_err(q.end[1])))[0]) == key for q in absent)
+                                ok = is_call(t, c["via"]) and pay and okabs
                     elif kind == "optional-result":
                         clo = [s for s in subterms(t) if s[0] == "agg" and s[1] == "closure"]
                         okc = False
